@@ -157,19 +157,21 @@ qb_array_index(struct qb_array * a, int32_t idx, void **element_out)
 			}
 			bin_alloced = QB_TRUE;
 		}
+		/* the bin table may be reallocated once the lock is dropped */
+		bin = a->bin[b];
 		/* new_bin_cb() needs to be called unlocked so can't extend the lock after the if block */
 		(void)qb_thread_unlock(a->grow_lock);
 		if (bin_alloced && a->new_bin_cb) {
 			a->new_bin_cb(a, b);
 		}
 	} else {
+		bin = a->bin[b];
 		(void)qb_thread_unlock(a->grow_lock);
 	}
 
 	elem = ELEM_NUM_GET(idx);
 	assert(elem < MAX_ELEMENTS_PER_BIN);
 
-	bin = a->bin[b];
 	*element_out = (bin + (a->element_size * elem));
 
 	return 0;
